@@ -14,6 +14,7 @@ mod c10;
 mod c11;
 mod c13;
 mod c14;
+mod c15;
 mod c18;
 mod c19;
 
@@ -71,6 +72,7 @@ fn main() {
         "C18" | "C17" => c18::search(&mut rng, budget, &mut fails),
         "C19" => c19::search(&mut rng, budget, &mut fails),
         "C14" => c14::search(&mut rng, budget, &mut fails),
+        "C15" => c15::search(&mut rng, budget, &mut fails),
         "C10" => c10::search(&mut rng, budget, &mut fails),
         "C04" | "C03" => c04::search(&mut rng, budget, &mut fails),
         _ => {
